@@ -29,6 +29,8 @@ pub mod c16;
 #[cfg(feature = "full")]
 pub mod c18;
 #[cfg(feature = "full")]
+pub mod c19;
+#[cfg(feature = "full")]
 pub mod c24;
 #[cfg(feature = "full")]
 pub mod c25;
@@ -85,6 +87,7 @@ pub fn all() -> Vec<Property> {
         v.push(Property { id: "C15", level: "exploration", build: c15::build });
         v.push(Property { id: "C16", level: "exploration", build: c16::build });
         v.push(Property { id: "C18", level: "exploration", build: c18::build });
+        v.push(Property { id: "C19", level: "exploration", build: c19::build });
         v.push(Property { id: "C24", level: "exploration", build: c24::build });
         v.push(Property { id: "C25", level: "exploration", build: c25::build });
         v.push(Property { id: "C26", level: "exploration", build: c26::build });
